@@ -445,7 +445,7 @@ CODE_PRE_BUG = "all(c >= -4 for c in xs)"
 def l2_module(prop: str, tier: str) -> Module:
     quick = tier == "quick"
     n = 2 if quick else 3
-    tmo = 60 if quick else 900
+    tmo = 60 if quick else 300
     m = Module(f"{prop.lower()}_l2").pre(SETUP).pre(UNION_SETUP)
     iter_names = ITER_NAMES if not quick or prop in ("C02", "C04") else ["List", "TupleVar", "Set", "Deque", "Sequence", "MutableSet", "ListAny", "SequenceAny"]
     fam = "L2 combinators with stub children"
@@ -623,7 +623,7 @@ def dump_union(name, osel, v, s):
 
 def l2_dump_module(prop: str, tier: str) -> Module:
     quick = tier == "quick"
-    tmo = 60 if quick else 600
+    tmo = 60 if quick else 300
     m = Module(f"{prop.lower()}_l2dump").pre("import collections, collections.abc, typing\nfrom collections import deque, defaultdict\n").pre(DUMP_SETUP)
     fam = "L2 dumpers: documented outer form, union dispatch by runtime class, debug-mode agreement"
     for name in ["List", "list", "TupleVar", "Deque", "Iterable", "Sequence", "MutableSequence", "Collection"]:
